@@ -358,6 +358,12 @@ def enumerate_cases(tier):
              "max([[5000]*100]*100, key=max)", "max([5000]*3000 + [4999]*3000, key=factorial)", "max([4000]*10**4, 1, key=factorial)"]
     for ex in keyed if tier != "quick" else keyed[:4]:
         yield {"kind": "bomb", "expr": ex, "pathway": "math", "timeout": 0.2, "tools": ["lookup"], "family": "keyed-aggregate"}
+    # sum() with a sequence start concatenates by repeated +: quadratic in the number of items
+    for ex in ["sum([[0]]*10**5, [])", "sum([[0]]*500000, [])", "sum(((0,),)*10**5, ())", "sum([[1, 2]]*10**5, [3])", "len(sum([[0]]*10**5, []))", "sum([[0]]*10**5, []) == []"]:
+        yield {"kind": "bomb", "expr": ex, "pathway": "math", "timeout": 0.2, "tools": ["lookup"], "family": "sum-concatenation"}
+    # results that are cheap to compute and expensive to render as text (digest_glucose / the agent return str(result))
+    for ex in ["[10**4299]*10**5", "(2**14000,)*10**5", "[10**4299]*10**6", "[[10**4000]*1000]*1000", "[7**5000]*50000"]:
+        yield {"kind": "bomb", "expr": ex, "pathway": "auto", "timeout": 0.2, "tools": ["lookup"], "family": "render-big-result", "entry": "digest_glucose"}
     for b in _call_bombs(tier):
         yield {"kind": "bomb", "expr": b, "pathway": "math", "timeout": 0.2, "tools": ["lookup"], "family": "allow-listed-call"}
     # results that are cheap to compute but awkward to hand back (ints beyond the interpreter's int->str limit, long sequences): every entry point
@@ -532,8 +538,9 @@ def judge(case):
 
 
 _WRAPPER_NAMES = {"math", "round", "isinstance", "int", "float", "bool", "abs", "len", "ValueError", "OverflowError", "TypeError", "operator",
-                  "factorial", "pow", "bit_length", "max", "min"}
-_WRAPPER_GRID = [(), (0,), (1,), (5,), (-3,), (2.567,), (2.5,), (True,), ("7",), (10,), (2.567, 1), (1234, -2), (2, 10), (2.0, 0.5), (7, 2), (-7, 2), ([1, 2],), (None,)]
+                  "factorial", "pow", "bit_length", "max", "min", "sum", "list", "tuple", "type", "extend", "append", "__name__", "str", "bytes"}
+_WRAPPER_GRID = [(), (0,), (1,), (5,), (-3,), (2.567,), (2.5,), (True,), ("7",), (10,), (2.567, 1), (1234, -2), (2, 10), (2.0, 0.5), (7, 2), (-7, 2), ([1, 2],), (None,),
+                 ([[1], [2, 3]], []), (((1,), (2,)), ()), ([[1], (2,)], []), ([[1]], ()), ([1.5, 2], 0.5), ([[1], [2]], [0]), (["a"], ""), ([], []), ([[1], 2], [])]
 
 
 def _bounded_wrapper_problem(name, obj, vetted):
